@@ -68,6 +68,68 @@ def fresh_table():
     return out
 
 
+STATION_LONS = {1: np.array([-0.5, 10.0, 170.0, -120.0]), 2: np.array([359.5, 10.0, 170.0, 200.0])}
+STATION_LATS = np.array([0.0, 5.0, -20.0, 30.0])
+
+
+def station_ds(g):
+    import xarray as xr
+    n = 4
+    efth = np.stack([np.full((3, 4), float(k + 1)) + np.eye(3, 4) * (k + 2) for k in range(n)])
+    return xr.Dataset({"efth": (("site", "freq", "dir"), efth), "lon": (("site",), STATION_LONS[g].copy()), "lat": (("site",), STATION_LATS.copy())},
+                      coords={"site": np.arange(n), "freq": [0.1, 0.2, 0.3], "dir": [0.0, 90.0, 180.0, 270.0]})
+
+
+def station_observe(ds):
+    out = {}
+    for name, kw in (("nearest", dict(method="nearest", tolerance=3.0)), ("idw", dict(method="idw", tolerance=30.0, max_sites=2)),
+                     ("bbox", dict(method="bbox", tolerance=1.0))):
+        try:
+            r = ds.spec.sel([-0.4, 171.0], [0.1, -19.0], **kw)
+            out[name] = (np.asarray(r.efth.values, float), np.asarray(r.lon.values, float), np.asarray(r.lat.values, float))
+        except Exception as ex:  # noqa
+            out[name] = ("raised", type(ex).__name__)
+    return out
+
+
+def station_histories(ctx, hist):
+    fresh = {g: station_observe(station_ds(g)) for g in (1, 2)}
+    done = set()
+    for acts, _ in hist:
+        if any(a not in ("access", "call_other", "set_dir", "call_unknown") for a, _ in acts):
+            continue
+        if acts in done:
+            continue
+        done.add(acts)
+        ds = station_ds(1)
+        cg = 1
+        for a, arg in acts:
+            if a == "access":
+                ds.spec
+            elif a == "call_other":
+                ds.spec.sel([9.0], [5.5], method="nearest", tolerance=5.0)
+            elif a == "set_dir":
+                cg = arg
+                ds["lon"] = (("site",), STATION_LONS[cg].copy())
+            elif a == "call_unknown":
+                try:
+                    ds.spec.sel([9.0], [5.5], method="no_such_method")
+                except Exception:  # noqa
+                    pass
+        got = station_observe(ds)
+        for name in got:
+            ctx.case(("station", acts, name), bool(acts))
+            a, b = got[name], fresh[cg][name]
+            same = (a[0] == "raised" and b[0] == "raised" and a[1] == b[1]) if (isinstance(a[0], str) or isinstance(b[0], str)) else \
+                all(x.shape == y.shape and np.allclose(x, y, rtol=1e-12, atol=1e-12, equal_nan=True) for x, y in zip(a, b))
+            if same:
+                ctx.replayed()
+            else:
+                ctx.violation({"history": [x for x, _ in acts], "kind": "ds", "op": "sel_" + name},
+                              "sel(method=%s) after history %s differs from a fresh dataset with the same station coordinates" % (name, [(x, g) for x, g in acts]),
+                              {"got_lon": None if isinstance(a[0], str) else a[1].tolist(), "fresh_lon": None if isinstance(b[0], str) else b[1].tolist()})
+
+
 def run(ctx):
     setup_repo_imports()
     import warnings
@@ -167,6 +229,9 @@ def run(ctx):
                     ctx.violation({"history": [a for a, _ in acts], "kind": kind_, "op": op},
                                   "%s on the %s accessor after history %s differs from a fresh object with the same contents: %s" %
                                   (op, "Dataset" if kind_ == "ds" else "DataArray", [(a, g) for a, g in acts], d), {"version": cv, "grid": cg, "fgrid": cf})
+    # ---- the same histories on a station dataset: edits replace the station longitudes in place (version 2 = the same stations
+    # written in [0,360] and one of them moved), the earlier call is a selection, the observation is a selection by each method
+    station_histories(ctx, hist)
     if hist:
         ctx.sample({"kind": "history", "actions": [list(x) for x in hist[len(hist) // 2][0]], "observed": OBS_OPS[:5]})
     # static work area across interleaved partition calls of different shapes: H1 traces (pinit event) validated by WatershedTrace
